@@ -1,5 +1,5 @@
 (** The exact incidence invariant WF of symbolic tensor networks and its preservation by
-    rename_tensor, rename_bond and transpose (merge: TNMerge.v). *)
+    rename_tensor_priv, rename_bond and transpose (merge: TNMerge.v). *)
 From Qib Require Export TN.TNDict.
 From Coq Require Import Permutation.
 Local Open Scope Z_scope.
@@ -95,12 +95,12 @@ Lemma nth_error_zreplace a c l ax : nth_error (zreplace a c l) ax =
   option_map (fun x => if Z.eqb x a then c else x) (nth_error l ax).
 Proof. apply nth_error_map. Qed.
 
-(* ------------------------------------------------------------------ rename_tensor *)
-Lemma rename_tensor_spec n a c n' : WF0 n -> rename_tensor n a c = Some n' ->
+(* ------------------------------------------------------------------ rename_tensor_priv *)
+Lemma rename_tensor_spec n a c n' : WF0 n -> rename_tensor_priv n a c = Some n' ->
   exists t, dget a (tensors n) = Some t /\ ~ In c (dkeys (tensors n)) /\
     n' = mkN (dpop a (tensors n) ++ [(c, set_tid t c)]) (upd_all (f_retid a c) (t_bids t) (bonds n)).
 Proof.
-  intros W H. unfold rename_tensor in H.
+  intros W H. unfold rename_tensor_priv in H.
   destruct (dget a (tensors n)) as [t|] eqn:Ht; [|discriminate].
   destruct (dhas c (tensors n)) eqn:Hc; [discriminate|]. apply dhas_false in Hc.
   destruct (negb (t_id t =? a)); [discriminate|].
@@ -173,7 +173,7 @@ Proof.
   - rewrite filter_In. tauto.
 Qed.
 
-Theorem rename_tensor_WF0 n a c n' : WF0 n -> rename_tensor n a c = Some n' -> WF0 n'.
+Theorem rename_tensor_WF0 n a c n' : WF0 n -> rename_tensor_priv n a c = Some n' -> WF0 n'.
 Proof.
   intros W H. destruct (rename_tensor_spec n a c n' W H) as [t [Ht [Hc ->]]].
   assert (Hac : a <> c) by (intros ->; apply Hc; eapply dget_Some_key; eauto).
@@ -300,26 +300,49 @@ Qed.
 Definition transposed (t : tensor) (axes : list nat) : tensor :=
   mkT (t_id t) (map (fun ax => nth ax (t_shape t) O) axes) (map (fun ax => nth ax (t_bids t) 0) axes) (t_ref t).
 
-Lemma transpose_spec n axes n' : transpose n axes = Some n' ->
-  exists t, dget VT (tensors n) = Some t /\ NoDup axes /\
-    (forall ax, In ax axes -> (ax < length (t_shape t))%nat /\ (ax < length (t_bids t))%nat) /\
-    n' = mkN (dset VT (transposed t axes) (tensors n)) (bonds n).
+Lemma zlist_eqb_eq a : forall b, zlist_eqb a b = true -> a = b.
 Proof.
-  unfold transpose. destruct (dget VT (tensors n)) as [t|]; [|discriminate].
-  destruct (nnodupb axes) eqn:ND; [|discriminate]. cbn [negb].
-  destruct (forallb _ axes) eqn:F; [|discriminate]. cbn [negb]. intros [= <-].
-  exists t. split; [reflexivity|]. split; [apply nnodupb_NoDup; assumption|]. split; [|reflexivity].
-  intros ax Hax. rewrite forallb_forall in F. specialize (F ax Hax).
-  apply andb_true_iff in F. destruct F as [A B]. apply Nat.ltb_lt in A, B. unfold t_ndim in A. auto.
+  induction a as [|x a IH]; intros [|y b] H; cbn in H; try discriminate; [reflexivity|].
+  apply andb_true_iff in H. destruct H as [E H]. apply Z.eqb_eq in E. subst. f_equal. apply IH. exact H.
 Qed.
 
 (** [axes] is a permutation of all open axes *)
 Definition is_perm_of (axes : list nat) (n : net) : Prop :=
   Permutation axes (seq 0 (length (vbids n))).
 
-Theorem transpose_WF0 n axes n' : WF0 n -> is_perm_of axes n -> transpose n axes = Some n' -> WF0 n'.
+(** an accepted transposition: the positions used are a permutation of ALL axes of the virtual
+    tensor (the code's own test  sorted(axes) == list(range(ndim))) *)
+Lemma transpose_spec n axes n' : transpose n axes = Some n' ->
+  exists t, dget VT (tensors n) = Some t /\ Permutation (nat_axes n axes) (seq 0 (t_ndim t)) /\
+    (forall ax, In ax (nat_axes n axes) -> (ax < length (t_shape t))%nat /\ (ax < length (t_bids t))%nat) /\
+    n' = mkN (dset VT (transposed t (nat_axes n axes)) (tensors n)) (bonds n).
 Proof.
-  intros W P H. destruct (transpose_spec n axes n' H) as [t [Ht [ND [Hax ->]]]].
+  unfold transpose, nat_axes. destruct (dget VT (tensors n)) as [t|]; [|discriminate].
+  unfold axes_refused. set (axs := norm_axes (t_ndim t) axes).
+  destruct (zlist_eqb (zsort axs) _) eqn:E; [|discriminate]. cbn [negb].
+  destruct (forallb _ (map Z.to_nat axs)) eqn:F; [|discriminate]. cbn [negb]. intros [= <-].
+  apply zlist_eqb_eq in E.
+  assert (P : Permutation (map Z.to_nat axs) (seq 0 (t_ndim t))).
+  { pose proof (Permutation_map Z.to_nat (zsort_perm axs)) as P. rewrite E, map_map in P.
+    rewrite (map_ext _ (fun x => x)) in P by (intros x; apply Nat2Z.id). rewrite map_id in P. exact P. }
+  exists t. split; [reflexivity|]. split; [exact P|]. split; [|reflexivity].
+  intros ax Hax. split.
+  - apply (Permutation_in _ P) in Hax. apply in_seq in Hax. unfold t_ndim in Hax. lia.
+  - rewrite forallb_forall in F. apply Nat.ltb_lt. apply F. exact Hax.
+Qed.
+
+Lemma transpose_is_perm n axes n' : WF0 n -> transpose n axes = Some n' -> is_perm_of (nat_axes n axes) n.
+Proof.
+  intros W H. destruct (transpose_spec n axes n' H) as [t [Ht [P _]]].
+  unfold is_perm_of, vbids. rewrite Ht.
+  pose proof (wf_T n W VT t (dget_In _ _ _ Ht)) as [_ Hlen]. unfold t_ndim in P. rewrite <- Hlen. exact P.
+Qed.
+
+Theorem transpose_WF0 n axes n' : WF0 n -> transpose n axes = Some n' -> WF0 n'.
+Proof.
+  intros W H. pose proof (transpose_is_perm n axes n' W H) as P.
+  destruct (transpose_spec n axes n' H) as [t [Ht [_ [Hax ->]]]].
+  set (axs := nat_axes n axes) in *.
   unfold is_perm_of, vbids in P. rewrite Ht in P.
   assert (HV : In VT (dkeys (tensors n))) by (eapply dget_Some_key; eauto).
   pose proof (wf_T n W VT t (dget_In _ _ _ Ht)) as [Hid Hlen].
@@ -338,7 +361,7 @@ Proof.
     apply In_dset_in in Hin; [|apply (wf_ndT n W)|assumption].
     destruct Hin as [[-> ->]|[_ Hin]]; [|eapply Hd; eauto].
     cbn [transposed t_bids t_shape] in *. rewrite nth_error_map in *.
-    destruct (nth_error axes ax') as [ax|] eqn:Ea; [|discriminate]. cbn in *.
+    destruct (nth_error axs ax') as [ax|] eqn:Ea; [|discriminate]. cbn in *.
     injection Hn as Hn. f_equal.
     destruct (Hax ax (nth_error_In _ _ Ea)) as [A B].
     assert (E : nth_error (t_bids t) ax = Some kb) by (rewrite <- Hn; apply nth_error_nth'; assumption).
